@@ -687,24 +687,68 @@ Fixpoint ti_abs (chars : text -> option (list cluster)) (paste : text) (os : lis
   | o :: r => fst (ti_abs_step chars paste o) :: ti_abs chars (snd (ti_abs_step chars paste o)) r
   end.
 
-(* Draw on observations.  It returns; and
+(* Draw on observations.
+
+   The scroll offset is state that survives between frames, so the statement about one
+   frame depends on the frames drawn before it.  The specification keeps its own record of
+   that history, computed from the Draw observations alone (window width, prompt, text and
+   cursor index; never from the widget's offset): `scrolled` = "an earlier frame may have
+   left the view scrolled".
+   - a frame that reaches the text (window wider than the prompt) with the cursor within
+     the first scrolloff graphemes shows the text from its beginning: the view is unscrolled
+     afterwards, whatever it was before (in particular every frame of an EMPTY field
+     resets the view);
+   - a frame in which prompt + text + scroll margin fit, and a frame that does not reach
+     the text (width 0, or the prompt fills the window), leave the view as it was;
+   - any other frame may scroll. *)
+Definition ti_reached (prompt : list cluster) (w : Z) : bool := (0 <? w) && (cl_width prompt <? w).
+Definition ti_not_reached (prompt : list cluster) (w : Z) : bool :=
+  (w =? 0) || ((0 <? w) && (w <=? cl_width prompt)).
+Definition ti_fits_margin (prompt ocl : list cluster) (w : Z) : bool :=
+  cl_width prompt + cl_width ocl + scrolloff <? w.
+
+Definition ti_scrolled_next (prompt : list cluster) (w : Z) (scrolled : bool) (ocl : list cluster) (ocur : Z) : bool :=
+  if ti_reached prompt w && (ocur <=? scrolloff) then false
+  else if ti_fits_margin prompt ocl w || ti_not_reached prompt w then scrolled
+  else true.
+
+(* One frame.  It returns; and, the cursor being within the text,
    - full = true (the property as stated): whenever prompt + text fit the window (with a
      column left for the cursor), the cursor is shown at prompt width + width of the text
      before the cursor;
-   - full = false (what the widget does guarantee, theorem
-     C17_textinput_drawn_cursor_column_partial): the same, but only when no earlier Draw
-     has scrolled (offset 0 before) and the widget's 4-column scroll margin fits as well.
+   - full = false (what the widget does guarantee, theorems
+     C17_textinput_drawn_cursor_column_partial and C17_textinput_frames_of_agreeing_run):
+     the same, but only when the view is unscrolled before the frame (the offset is 0, or
+     no frame since the last resetting frame may have scrolled) and the widget's 4-column
+     scroll margin fits as well.
    Cases that fail the first and pass the second are the recorded finding
    "textinput-sticky-offset". *)
-Definition ti_draw_ok (full : bool) (prompt : list cluster) (w : Z) (off_before : Z) (ob : ti_obs) : bool :=
+Definition ti_draw_ok (full : bool) (prompt : list cluster) (w : Z) (off_before : Z) (scrolled : bool)
+           (ob : ti_obs) : bool :=
   let '(ocl, ocur, ooff, oout, oshown, _) := ob in
   (oout =? 0)
-  && (if (if full then cl_width prompt + cl_width ocl <? w
-          else (off_before =? 0) && (cl_width prompt + cl_width ocl + scrolloff <? w))
+  && (if (0 <=? ocur) && (ocur <=? zlen ocl)
+         && (if full then cl_width prompt + cl_width ocl <? w
+             else ((off_before =? 0) || negb scrolled) && ti_fits_margin prompt ocl w)
       then oshown =? cl_width prompt + cl_width (firstn (Z.to_nat ocur) ocl) else true).
 
-Fixpoint ti_spec_ok (full : bool) (prompt : list cluster) (al : list Z) (e : ideal cluster) (off : Z)
+(* the frames of a history: `off` = offset observed after the previous step, `scrolled` as
+   above.  (Nothing is said after a step that did not return: ti_edits_ok rejects it.) *)
+Fixpoint ti_draws_ok (full : bool) (prompt : list cluster) (off : Z) (scrolled : bool)
          (steps : list ti_stepc) : bool :=
+  match steps with
+  | [] => true
+  | (o, _, ob) :: rest =>
+      let '(ocl, ocur, ooff, oout, _, _) := ob in
+      match o with
+      | ODraw w => ti_draw_ok full prompt w off scrolled ob
+                   && ti_draws_ok full prompt ooff (ti_scrolled_next prompt w scrolled ocl ocur) rest
+      | _ => if oout =? 0 then ti_draws_ok full prompt ooff scrolled rest else true
+      end
+  end.
+
+(* text and cursor: an ideal editor is run next to the observations *)
+Fixpoint ti_edits_ok (al : list Z) (e : ideal cluster) (steps : list ti_stepc) : bool :=
   match steps with
   | [] => true
   | (o, tbl, ob) :: rest =>
@@ -712,9 +756,17 @@ Fixpoint ti_spec_ok (full : bool) (prompt : list cluster) (al : list Z) (e : ide
       let e' := i_step (ti_isw (tbl_alnum al)) e (ti_iop o tbl) in
       (oout =? 0) && clusters_eqb ocl (i_text e') && (ocur =? i_index e')
       && (0 <=? ocur) && (ocur <=? zlen ocl) && reseg
-      && match o with ODraw w => ti_draw_ok full prompt w off ob | _ => true end
-      && ti_spec_ok full prompt al e' ooff rest
+      && ti_edits_ok al e' rest
   end.
+
+Definition ti_spec_ok (full : bool) (prompt : list cluster) (al : list Z) (e : ideal cluster) (off : Z)
+           (steps : list ti_stepc) : bool :=
+  ti_edits_ok al e steps && ti_draws_ok full prompt off false steps.
+
+(* decidable side conditions of the frame theorem: measured widths are not negative *)
+Definition widths_okb (cs : list cluster) : bool := forallb (fun c : cluster => 0 <=? snd c) cs.
+Definition ti_obs_widths_ok (steps : list ti_stepc) : bool :=
+  forallb (fun s : ti_stepc => let '(_, _, (ocl, _, _, _, _, _)) := s in widths_okb ocl) steps.
 
 (* on every case, stable or not: every Update and every Draw returns normally *)
 Definition ti_returns_ok (steps : list ti_stepc) : bool :=
